@@ -49,3 +49,122 @@ MUTANTS = [
             matching[pair.student_index] = str(pair.project_index)
         return ' '.join(matching)'''),
 ]
+
+MUTANTS += [
+    # ---- C02
+    m('maxsize_bound_small', ['C02'], LP, '''                "obj_maxsize", 
+                lowBound = 0, 
+                upBound = self.model.num_students, ''', '''                "obj_maxsize", 
+                lowBound = 0, 
+                upBound = self.model.num_projects, '''),
+    m('abs_diff_bound_target', ['C02'], MODEL, '''                    "abs_lec_diff_{}".format(lec_index), 
+                    lowBound = 0, 
+                    upBound = lec_upper_quota, ''', '''                    "abs_lec_diff_{}".format(lec_index), 
+                    lowBound = 0, 
+                    upBound = self.lec_targets[lec_index], '''),
+    m('lmb_bound_small', ['C02'], LP, 'upBound = self.model.get_max_lec_upper_quota(),',
+      'upBound = max(self.model.lec_targets),'),
+    m('status_from_first_solve_only', ['C02', 'C14'], LP,
+      '        return LpStatus[self.prob.status] ',
+      '        return LpStatus[self.prob.status] if len(self.optimisation_options) < 3 else "Optimal"'),
+    m('gen_rank_var_bound', ['C02'], LP, '''                    "obj_generous_rank_" + str(r), 
+                    lowBound = 0, 
+                    upBound = self.model.num_students, ''', '''                    "obj_generous_rank_" + str(r), 
+                    lowBound = 0, 
+                    upBound = len(self.model.rank_lists[r - 1]) - 1, '''),
+    # ---- C03
+    m('maxsize_minimises', ['C03'], LP,
+      '''        self.prob += (lpSum(all_vars) == obj)
+        self.perform_optimisation(obj, Optimisation_type.MAXIMISE)
+        
+
+    def optimisation_minsize''', '''        self.prob += (lpSum(all_vars) == obj)
+        self.perform_optimisation(obj, Optimisation_type.MINIMISE)
+        
+
+    def optimisation_minsize'''),
+    m('generous_stops_early', ['C03'], LP,
+      'for r in range(len(self.model.rank_lists), max(0, up_to_postition_inclusive - 1), -1):',
+      'for r in range(len(self.model.rank_lists), max(1, up_to_postition_inclusive), -1):'),
+    m('greedy_cutoff_off_by_one', ['C03'], LP,
+      'for r in range(1, min(up_to_postition_inclusive + 1, len(self.model.rank_lists) + 1)):',
+      'for r in range(1, min(up_to_postition_inclusive, len(self.model.rank_lists)) + (0 if len(additional_arguments) else 1)):'),
+    m('rank_lists_index', ['C03'], LP, 'for pair in self.model.rank_lists[r - 1]:',
+      'for pair in self.model.rank_lists[min(r, len(self.model.rank_lists) - 1)]:'),
+    m('mincost_lecturer_uses_student_rank', ['C03'], LP,
+      'sum_costs_exp += pair.lp_var * pair.rank_lecturer * lecturer_multiplier',
+      'sum_costs_exp += pair.lp_var * pair.rank_student * lecturer_multiplier'),
+    m('minsqcost_not_squared_lecturer', ['C03'], LP,
+      'sum_costs_exp += pair.lp_var * pair.rank_lecturer**2 * lecturer_multiplier',
+      'sum_costs_exp += pair.lp_var * pair.rank_lecturer * lecturer_multiplier'),
+    m('abs_diff_one_sided', ['C03'], LP, '''            self.prob += (self.model.abs_lec_diff[lec_index] >= 
+                self.model.lec_underload[lec_index])''', '''            pass'''),
+    m('lmb_uses_first_lecturer_only', ['C03'], LP,
+      '''        for lec_index in range(self.model.num_lecturers):
+            self.prob += (obj >= self.model.abs_lec_diff[lec_index])''',
+      '''        for lec_index in range(max(1, self.model.num_lecturers - 1)):
+            self.prob += (obj >= self.model.abs_lec_diff[lec_index])'''),
+    m('mincostlsb_default_mult_zero', ['C03'], LP,
+      'lecturer_multiplier = 1 if len(cost_multipliers) < 2 else cost_multipliers[1]',
+      'lecturer_multiplier = 0 if len(cost_multipliers) < 2 else cost_multipliers[1]'),
+    m('mincost_default_lecturer_mult_one', ['C03'], LP,
+      '''        lecturer_multiplier = 0 if len(cost_multipliers) < 2 else cost_multipliers[1]
+        self.info_string += '- optimisation: minimising sum of ranks\\n\'''',
+      '''        lecturer_multiplier = 1 if len(cost_multipliers) < 2 else cost_multipliers[1]
+        self.info_string += '- optimisation: minimising sum of ranks\\n\''''),
+    # ---- C04
+    m('freeze_min_dropped', ['C04'], LP,
+      '            self.prob += objective_function <= objective_function.varValue',
+      '            pass'),
+    m('freeze_max_wrong_direction', ['C04'], LP,
+      '            self.prob += objective_function >= objective_function.varValue',
+      '            self.prob += objective_function <= objective_function.varValue'),
+    m('order_by_enum_not_position', ['C04', 'C16'], OPT,
+      '''        ordered_opts = temp
+        return ordered_opts, count''',
+      '''        ordered_opts = sorted(temp, key=lambda x: x[0].value) if len(temp) > 3 else temp
+        return ordered_opts, count'''),
+    m('freeze_slack_on_minimise', ['C04'], LP,
+      '            self.prob += objective_function <= objective_function.varValue',
+      '            self.prob += objective_function <= objective_function.varValue + 1'),
+    # ---- C05
+    m('alpha_strict_rank', ['C05'], LP, '''                    if (lec_pair.rank_lecturer <= aim_rank and 
+                        not lec_pair.studentID == pair.studentID):''',
+      '''                    if (lec_pair.rank_lecturer < aim_rank and 
+                        not lec_pair.studentID == pair.studentID):'''),
+    m('alpha_includes_own_student', ['C05'], LP, '''                    if (lec_pair.rank_lecturer <= aim_rank and 
+                        not lec_pair.studentID == pair.studentID):''',
+      '''                    if (lec_pair.rank_lecturer <= aim_rank):'''),
+    m('alpha_uses_project_uq', ['C05'], LP,
+      'neg_l_uq = -1 * self.model.lec_upper_quotas[pair.lecturer_index]',
+      'neg_l_uq = -1 * self.model.proj_upper_quotas[pair.project_index]'),
+    m('beta_ignores_project', ['C05'], LP,
+      'if lec_pair.projectID == pair.projectID:', 'if True:'),
+    m('wants_to_move_strictly_better_only', ['C05'], LP,
+      'while current_rank <= aim_rank and index < st_pref_length:',
+      'while current_rank < aim_rank and index < st_pref_length:'),
+    m('gamma_without_beta', ['C05'], LP, '                gamma_exp -= pair.beta_var\n', ''),
+    # ---- C11
+    m('cost_lecturer_uses_student_rank', ['C11'], MODEL,
+      '                cost_lec += pair.rank_lecturer', '                cost_lec += pair.rank_student'),
+    m('profile_index_off', ['C11'], MODEL,
+      '            rank_allocations[pair.rank_student - 1] += 1',
+      '            rank_allocations[min(pair.rank_student, max_rank - 1)] += 1'),
+    m('abs_diff_no_negative_branch', ['C11'], MODEL, '''            if lpos > lneg:
+                lec_abs_diffs[lec_index] = lpos
+            else:
+                lec_abs_diffs[lec_index] = lneg''', '''            lec_abs_diffs[lec_index] = max(lpos, 0)'''),
+    m('project_listing_lecturer_by_index', ['C11'], MODEL,
+      "str(self.proj_lecturers[j]) + '): ')", "str(min(j + 1, self.num_lecturers)) + '): ')"),
+    m('lecturer_listing_target_swapped', ['C11'], MODEL,
+      '''                str(self.lec_upper_quotas[k]) + ' (' + 
+                str(self.lec_targets[k]) + ')\\n')''',
+      '''                str(self.lec_targets[k]) + ' (' + 
+                str(self.lec_upper_quotas[k]) + ')\\n')'''),
+    m('degree_min_instead_of_max', ['C11'], MODEL,
+      '            if pair.rank_student > max_matched_rank:',
+      '            if pair.rank_student > max_matched_rank and pair.rank_student < 3:'),
+    m('size_counts_pairs_of_project', ['C11'], MODEL,
+      "        return len(matching) - matching.count('0')",
+      "        return len(set(matching) - {'0'})"),
+]
